@@ -126,15 +126,18 @@ theorem nameOK_of_graphic (name : Bytes) (h : ∀ b ∈ name, isGraphic b = true
 theorem file_indexOK (f : Hts.Spec.Fasta.File) (h : f.WF) (hq : ∀ r ∈ f.recs, DQ ∉ r.name)
     (hsz : f.render.length < 2 ^ 63) :
     IndexOK (f.entries.map ofEntry) ∧ sortByStart (f.entries.map ofEntry) = f.entries.map ofEntry := by
-  obtain ⟨_, hwf, hdist⟩ := h
-  obtain ⟨hb, hp⟩ := entries_bounds f.recs hwf 0
-  have hlen : (f.recs.map Rec.render).flatten.length < 2 ^ 63 := hsz
+  obtain ⟨_, hwf, hdist, _⟩ := h
+  obtain ⟨hb, hp⟩ := entries_bounds f.recs hwf f.leading.length
+  have hlen : f.leading.length + (f.recs.map Rec.render).flatten.length < 2 ^ 63 := by
+    have : f.render.length = f.leading.length + (f.recs.map Rec.render).flatten.length := by
+      simp [Hts.Spec.Fasta.File.render]
+    omega
   refine ⟨⟨?_, ?_, ?_⟩, ?_⟩
   · have : (f.entries.map ofEntry).map (·.name) = f.recs.map (·.name) := by
       rw [List.map_map]
       have : ((fun x : Record => x.name) ∘ ofEntry) = (fun e : Entry => e.name) := rfl
       rw [this]
-      exact entries_names 0 f.recs
+      exact entries_names _ f.recs
     rw [this]
     exact nodup_of_namesDistinct _ hdist
   · intro R hR
@@ -142,7 +145,7 @@ theorem file_indexOK (f : Hts.Spec.Fasta.File) (h : f.WF) (hq : ∀ r ∈ f.recs
     obtain ⟨e, he, rfl⟩ := hR
     -- e.name is the name of some record
     have hn : e.name ∈ f.recs.map (·.name) := by
-      rw [← entries_names 0 f.recs]
+      rw [← entries_names f.leading.length f.recs]
       exact List.mem_map.mpr ⟨e, he, rfl⟩
     obtain ⟨r, hr, hre⟩ := List.mem_map.mp hn
     obtain ⟨last, hok⟩ := recOK_of_mem f.recs hwf r hr
